@@ -10,6 +10,8 @@ RULE = ("group iso: one call of a random entry point (conelp coneqp lp qp socp s
         "options-precedence, validation and budget monitors; group hist: random call histories with option edits vs fresh processes; "
         "group threads: T in {2,4,8} threads with per-call options vs sequential.  class signature = monitor x entry x configuration")
 ASSUMPTIONS = ["bit-identical means equal pickled byte images of every field of the result dictionary",
+               "inputs whose byte image is compared before/after a call: every matrix argument, dims, primalstart/dualstart/initvals dictionaries, "
+               "the options dictionaries, and (cpl/cp, half of the calls) a start point that F() hands out from a caller-kept matrix",
                "TSan/helgrind are not used (CPython is not instrumented); schedules are those produced by the interpreter with switch interval 1e-6 and injected sleep(0) yields at LINE events of coneprog/cvxprog/misc"]
 ENTRIES = ["conelp", "coneqp", "lp", "qp", "socp", "sdp", "cpl", "cp", "gp", "op"]
 REQUIRED_COUNTERS = ["iso." + e for e in ENTRIES] + ["immutability-checks", "global-state-checks", "options-precedence-checks",
